@@ -380,6 +380,22 @@ func c05CLI(t *mon.T, d c05Desc, dir string) {
 		c05CheckFile(t, "car get-dag", mustRead(got), nil, dir, false, 0, 0, 0, nil)
 		t.Cover("cli:get-dag")
 	}
+	// get-dag of a raw leaf (a root without links): the smallest archive the tool can emit
+	for _, sec := range a.Payload.Sections {
+		if sec.Cid.Codec != 0x55 || sec.Cid.IsIdentity() {
+			continue
+		}
+		leaf := filepath.Join(dir, "leaf.car")
+		if _, stderr, err, tmo := runCarT(t, dir, nil, "get-dag", created, lab.ToCid(sec.Cid.Raw).String(), leaf); tmo {
+			return
+		} else if err != nil {
+			t.Violatef("car get-dag/raw leaf root/exit-nonzero", "car get-dag of a raw leaf failed: %v %s", err, stderr)
+		} else {
+			c05CheckFile(t, "car get-dag(raw leaf root)", mustRead(leaf), nil, dir, false, 0, 0, 0, nil)
+			t.Cover("cli:get-dag-of-a-raw-leaf")
+		}
+		break
+	}
 	// filter: keep a seeded subset of the CIDs
 	var keep []string
 	for _, s := range a.Payload.Sections {
@@ -434,7 +450,7 @@ func init() {
 		Assumptions: []string{"refcar parses containers and indexes; lab.Model decides which puts are stored"},
 		Gen:         genC05,
 		Run:         runC05,
-		MinCover: map[string]int{"api:blockstore": 20, "api:storage-writable": 20, "api:storage-rw": 20, "api:deferred": 20, "api:cli": 10, "cli:get-dag": 10, "cli:filter": 10,
+		MinCover: map[string]int{"api:blockstore": 20, "api:storage-writable": 20, "api:storage-rw": 20, "api:deferred": 20, "api:cli": 10, "cli:get-dag": 10, "cli:get-dag-of-a-raw-leaf": 5, "cli:filter": 10,
 			"v2-files-checked": 200, "verifycar-run": 50, "sessions-without-stored-blocks": 5, "big-sessions": 4, "deferred-over-existing-larger-file": 20},
 	})
 }
